@@ -1,0 +1,18 @@
+// Copyright 2026 The Go Authors. All rights reserved.
+// Use of this source code is governed by a BSD-style
+// license that can be found in the LICENSE file.
+
+//go:build !verif && (!goexperiment.jsonv2 || !go1.25)
+
+package jsontext
+
+// Instrumentation points for external runtime monitors.
+// Without the "verif" build tag they are empty and inlined away.
+
+func verifFetch(d *decoderState, grew bool)   {}
+func verifFlush(e *encoderState, n int)       {}
+func verifUnwrite(e *encoderState, kind int)  {}
+func verifGetEncoder(e *Encoder)              {}
+func verifPutEncoder(e *Encoder)              {}
+func verifGetDecoder(d *Decoder)              {}
+func verifPutDecoder(d *Decoder)              {}
